@@ -34,14 +34,15 @@ func (r *RAT[K, V]) Find(k K, predicate func(V) bool) (V, bool) {
 	}
 
 	for i := idx; i >= 0; i-- {
-		v := r.values[k][idx]
+		v := r.values[k][i]
 		if predicate(v) {
 			return v, true
 		}
 	}
 
-	for i := r.length - 1; i > idx; i-- {
-		v := r.values[k][idx]
+	// Slots above idx hold older values only once the ring has wrapped
+	for i := len(r.values[k]) - 1; i > idx; i-- {
+		v := r.values[k][i]
 		if predicate(v) {
 			return v, true
 		}
@@ -54,13 +55,19 @@ func (r *RAT[K, V]) Write(k K, value V) {
 	idx, exists := r.idx[k]
 	if !exists {
 		idx = 0
-		r.values[k] = make([]V, r.length)
+		r.values[k] = make([]V, 0, r.length)
 	} else {
 		idx = (idx + 1) % r.length
 	}
 
 	r.idx[k] = idx
-	r.values[k][idx] = value
+	if idx == len(r.values[k]) {
+		// The ring grows until it wraps, so that it never exposes a slot that
+		// was not written
+		r.values[k] = append(r.values[k], value)
+	} else {
+		r.values[k][idx] = value
+	}
 }
 
 func (r *RAT[K, V]) Values() map[K]V {
@@ -85,7 +92,7 @@ func (r *RAT[K, V]) FindValues(predicate func(V) bool) map[K]V {
 		if found {
 			continue
 		}
-		for i := r.length - 1; i > v; i-- {
+		for i := len(r.values[k]) - 1; i > v; i-- {
 			if predicate(r.values[k][i]) {
 				m[k] = r.values[k][i]
 				break
